@@ -457,4 +457,380 @@ example :
 
 example : wireOK [.app 0 0, .kexinit, .app 0 1, .newkeys] = false := by decide
 
+/-! ## receive side: what reaches `incoming` across key changes -/
+
+def phaseOf : Bool → RPhase
+  | true => .inKex
+  | false => .idle
+
+theorem recvRun_cons (s : RSt) (x : Item) (l : List Item) : recvRun s (x :: l) = recvRun (recv s x) l := rfl
+
+theorem recvRun_of_wireScan (l : List Item) : ∀ (b : Bool) (d : List (Nat × Nat)), wireScan b l = true →
+    recvRun ⟨phaseOf b, d⟩ l = ⟨phaseOf (inKexAfter b l), d ++ appsOf l⟩ := by
+  induction l with
+  | nil => intro b d _; simp [recvRun, inKexAfter, appsOf]
+  | cons x l ih =>
+    intro b d h
+    rw [recvRun_cons]
+    cases x with
+    | app w n =>
+      cases b with
+      | true => simp [wireScan] at h
+      | false =>
+        simp only [wireScan, Bool.not_false, Bool.true_and] at h
+        have e : recv ⟨phaseOf false, d⟩ (.app w n) = ⟨phaseOf false, d ++ [(w, n)]⟩ := rfl
+        rw [e, ih false _ h]
+        simp [inKexAfter, appsOf]
+    | kexinit =>
+      cases b with
+      | true => simp [wireScan] at h
+      | false =>
+        simp only [wireScan, Bool.not_false, Bool.true_and] at h
+        have e : recv ⟨phaseOf false, d⟩ .kexinit = ⟨phaseOf true, d⟩ := rfl
+        rw [e, ih true _ h]
+        simp [inKexAfter, appsOf]
+    | kexmsg =>
+      simp only [wireScan] at h
+      have e : recv ⟨phaseOf b, d⟩ .kexmsg = ⟨phaseOf b, d⟩ := by cases b <;> rfl
+      rw [e, ih b _ h]
+      simp [inKexAfter, appsOf]
+    | newkeys =>
+      cases b with
+      | false => simp [wireScan] at h
+      | true =>
+        simp only [wireScan, Bool.true_and] at h
+        have e : recv ⟨phaseOf true, d⟩ .newkeys = ⟨phaseOf false, d⟩ := rfl
+        rw [e, ih false _ h]
+        simp [inKexAfter, appsOf]
+
+/-- **delivered_exactly_once_in_order** (peer → us): whatever prefix of the peer's wire has arrived — the peer being
+    any reachable state of the send-side system, i.e. any interleaving of its writers with its key exchanges — the
+    receive side has not failed and `incoming` got exactly the application packets of that prefix, in wire order:
+    none lost or duplicated across the key changes, none swallowed by the key exchange. -/
+theorem delivered_exactly_once_in_order (ls : List Label) (s : St) (h : runFrom init ls = some s)
+    (pre rest : List Item) (hw : s.wire = pre ++ rest) :
+    (recvRun rinit pre).phase ≠ .failed ∧ (recvRun rinit pre).delivered = appsOf pre := by
+  have hok := no_app_between_kexinit_and_newkeys ls s h
+  unfold wireOK at hok
+  rw [hw, wireScan_append] at hok
+  have hpre : wireScan false pre = true := by
+    cases hh : wireScan false pre <;> simp [hh] at hok ⊢
+  have := recvRun_of_wireScan pre false [] hpre
+  have e : rinit = ⟨phaseOf false, []⟩ := rfl
+  rw [e, this]
+  constructor
+  · cases inKexAfter false pre <;> simp [phaseOf]
+  · simp
+
+theorem seqOf_appsOf (w : Nat) (l : List Item) : seqOf w (appsOf l) = onWire w l := by
+  induction l with
+  | nil => rfl
+  | cons x l ih =>
+    cases x with
+    | app v n =>
+      by_cases hv : v = w
+      · simp [appsOf, onWire, seqOf, List.filter, hv] at ih ⊢; exact ih
+      · have hv' : (v == w) = false := by simpa using hv
+        simp [appsOf, onWire, seqOf, List.filter, hv, hv'] at ih ⊢; exact ih
+    | kexinit => simpa [appsOf, onWire] using ih
+    | kexmsg => simpa [appsOf, onWire] using ih
+    | newkeys => simpa [appsOf, onWire] using ih
+
+/-- end to end, per writer: once the peer is quiescent and its whole wire has arrived, writer w's packets in
+    `incoming` are exactly 0, 1, …, submitted − 1 in order -/
+theorem delivered_per_writer_complete (ls : List Label) (s : St) (h : runFrom init ls = some s)
+    (hq : s.pending = []) (hp : s.parked = []) (w : Nat) :
+    seqOf w (recvRun rinit s.wire).delivered = List.range (s.next w) := by
+  have hd := (delivered_exactly_once_in_order ls s h s.wire [] (by simp)).2
+  rw [hd, seqOf_appsOf]
+  have := exactly_once_in_order ls s h w
+  rw [hq, hp] at this
+  simpa [seqOf, parkedOf] using this
+
+/-! ## threshold accounting -/
+
+structure BInv (m : Nat) (s : BSt) : Prop where
+  sum : s.bytesLeft + (s.counted : Int) = (s.thr : Int)
+  low : -(m : Int) < s.bytesLeft
+  over0 : s.over = 0 → s.direct = s.counted
+  req : 0 < s.over → (s.reqKex = true ∨ s.woken = true ∨ s.sentInit = true)
+  pk : s.pktsLeft ≤ packetBudget
+
+theorem binv_init (m thr : Nat) (hm : 0 < m) : BInv m (binit thr) := by
+  refine ⟨by simp [binit], by simp [binit]; omega, fun _ => rfl, fun h => by simp [binit] at h, by simp [binit]⟩
+
+theorem binv_step (m : Nat) (s s' : BSt) (l : BLabel) (hsz : sizesBounded m [l] = true)
+    (h : bstep s l = some s') (hi : BInv m s) : BInv m s' := by
+  obtain ⟨h1, h2, h3, h4, h5⟩ := hi
+  cases l with
+  | push z =>
+    have hz : z ≤ m := by simpa [sizesBounded] using hsz
+    simp only [bstep] at h
+    by_cases hs : s.sentInit = true
+    · simp [hs] at h
+    · have hs' : s.sentInit = false := by simpa using hs
+      simp only [hs', Bool.false_eq_true, if_false, Option.some.injEq] at h
+      subst h
+      by_cases hb : s.bytesLeft ≤ 0 <;> by_cases hp : s.pktsLeft = 0
+      · refine ⟨by simpa [hb] using h1, by simpa [hb] using h2, fun e => by simp [hb] at e,
+                fun _ => by simp [hb], by simpa [hp] using h5⟩
+      · refine ⟨by simpa [hb] using h1, by simpa [hb] using h2, fun e => by simp [hb] at e,
+                fun _ => by simp [hb], by simp [hp]; omega⟩
+      · refine ⟨by simp [hb]; omega, by simp [hb]; omega, fun e => by simp [hb, hp] at e,
+                fun _ => by simp [hp], by simpa [hp] using h5⟩
+      · refine ⟨by simp [hb]; omega, by simp [hb]; omega, fun e => ?_, fun e => ?_, by simp [hp]; omega⟩
+        · simp [hb, hp] at e ⊢
+          have := h3 e; omega
+        · simp [hb, hp] at e ⊢
+          have := h4 e
+          simpa [hs'] using this
+  | request =>
+    simp only [bstep, Option.some.injEq] at h; subst h
+    exact ⟨h1, h2, h3, fun _ => Or.inl rfl, h5⟩
+  | take =>
+    simp only [bstep] at h
+    split at h
+    · simp only [Option.some.injEq] at h; subst h
+      exact ⟨h1, h2, h3, fun _ => Or.inr (Or.inl rfl), h5⟩
+    · simp at h
+  | peerInit =>
+    simp only [bstep] at h
+    split at h
+    · simp only [Option.some.injEq] at h; subst h
+      exact ⟨h1, h2, h3, fun _ => Or.inr (Or.inl rfl), h5⟩
+    · simp at h
+  | drain =>
+    simp only [bstep] at h
+    split at h
+    · rename_i hc
+      simp only [Option.some.injEq] at h; subst h
+      have : s.sentInit = true := by
+        have := (Bool.and_eq_true _ _).mp hc; exact this.2
+      exact ⟨h1, h2, h3, fun _ => Or.inr (Or.inr this), h5⟩
+    · simp at h
+  | kexinit =>
+    simp only [bstep] at h
+    split at h
+    · simp only [Option.some.injEq] at h; subst h
+      exact ⟨h1, h2, h3, fun _ => Or.inr (Or.inr rfl), h5⟩
+    · simp at h
+  | finish =>
+    simp only [bstep] at h
+    split at h
+    · simp only [Option.some.injEq] at h; subst h
+      refine ⟨by simp, by simp; omega, fun _ => rfl, fun e => by simp at e, by simp⟩
+    · simp at h
+
+theorem binv_run (m : Nat) : ∀ (ls : List BLabel) (s s' : BSt), sizesBounded m ls = true → BInv m s →
+    brun s ls = some s' → BInv m s' := by
+  intro ls
+  induction ls with
+  | nil => intro s s' _ hi h; simp [brun] at h; subst h; exact hi
+  | cons l ls ih =>
+    intro s s' hsz hi h
+    simp only [brun] at h
+    have hl : sizesBounded m [l] = true ∧ sizesBounded m ls = true := by
+      cases l <;> simp [sizesBounded] at hsz ⊢ <;> first | exact hsz | exact ⟨hsz.1, hsz.2⟩
+    cases hs : bstep s l with
+    | none => simp [hs] at h
+    | some t => simp only [hs] at h; exact ih t s' hl.2 (binv_step m s t l hl.1 hs hi) h
+
+/-- the bytes charged to one budget never exceed the threshold by a full packet: the last charged packet started
+    with a positive remainder -/
+theorem budget_bounded (m thr : Nat) (hm : 0 < m) (ls : List BLabel) (s : BSt)
+    (hsz : sizesBounded m ls = true) (h : brun (binit thr) ls = some s) :
+    s.counted < s.thr + m := by
+  have hi := binv_run m ls _ s hsz (binv_init m thr hm) h
+  have := hi.sum; have := hi.low
+  omega
+
+/-- **exhausted ⇒ re-key pending**: as soon as one packet has been pushed with an exhausted byte or packet budget,
+    a key exchange has been requested (token in `requestKex`), is about to start, or is running -/
+theorem exhausted_implies_rekey_pending (m thr : Nat) (hm : 0 < m) (ls : List BLabel) (s : BSt)
+    (hsz : sizesBounded m ls = true) (h : brun (binit thr) ls = some s) (ho : 0 < s.over) :
+    s.reqKex = true ∨ s.woken = true ∨ s.sentInit = true :=
+  (binv_run m ls _ s hsz (binv_init m thr hm) h).req ho
+
+/-- **rekey_requested_before_budget_exhausted**: while no key exchange is requested, about to start or running,
+    the application bytes pushed directly under the current keys are below threshold + one packet.
+    (What the code does *not* bound: packets pushed after the request and before `kexLoop` gets to send KEXINIT,
+    and the ≤ 64 queued packets flushed uncharged right after a key exchange.) -/
+theorem rekey_requested_before_budget_exhausted (m thr : Nat) (hm : 0 < m) (ls : List BLabel) (s : BSt)
+    (hsz : sizesBounded m ls = true) (h : brun (binit thr) ls = some s)
+    (hq : s.reqKex = false ∧ s.woken = false ∧ s.sentInit = false) :
+    s.direct < s.thr + m := by
+  have hi := binv_run m ls _ s hsz (binv_init m thr hm) h
+  have ho : s.over = 0 := by
+    cases ho : s.over with
+    | zero => rfl
+    | succ k =>
+      have := hi.req (by omega)
+      obtain ⟨a, b, c⟩ := hq
+      simp [a, b, c] at this
+  rw [hi.over0 ho]
+  have := hi.sum; have := hi.low
+  omega
+
+/-- the threshold stays what it was configured to be -/
+example : (brun (binit 256) [.push 200, .push 100, .push 50, .take, .kexinit, .finish]).map (fun s => (s.bytesLeft, s.direct))
+    = some (256, 0) := by decide
+example : (brun (binit 256) [.push 200, .push 100, .push 50]).map (fun s => (s.bytesLeft, s.reqKex, s.over, s.direct))
+    = some (-44, true, 1, 350) := by decide
+
+/-! ## the error path -/
+
+theorem estep_ok_err (e e' : ESt) (l : Label) (h : estep e (.ok l) = some e') : e'.err = e.err := by
+  cases l with
+  | wake w =>
+    simp only [estep] at h
+    by_cases he : e.err = true
+    · simp only [he, if_true] at h
+      split at h
+      · simp at h
+      · split at h
+        · simp at h
+        · simp only [Option.some.injEq] at h; subst h; exact he.symm
+    · have he' : e.err = false := by simpa using he
+      simp only [he', Bool.false_eq_true, if_false, Option.map_eq_some_iff] at h
+      obtain ⟨_, _, rfl⟩ := h; exact he'.symm
+  | submit w =>
+    simp only [estep] at h
+    by_cases he : e.err = true
+    · simp [he] at h
+    · have he' : e.err = false := by simpa using he
+      simp only [he', Bool.false_eq_true, if_false, Option.map_eq_some_iff] at h
+      obtain ⟨_, _, rfl⟩ := h; exact he'.symm
+  | kexinit =>
+    simp only [estep] at h
+    by_cases he : e.err = true
+    · simp [he] at h
+    · have he' : e.err = false := by simpa using he
+      simp only [he', Bool.false_eq_true, if_false, Option.map_eq_some_iff] at h
+      obtain ⟨_, _, rfl⟩ := h; exact he'.symm
+  | kexmsg =>
+    simp only [estep] at h
+    by_cases he : e.err = true
+    · simp [he] at h
+    · have he' : e.err = false := by simpa using he
+      simp only [he', Bool.false_eq_true, if_false, Option.map_eq_some_iff] at h
+      obtain ⟨_, _, rfl⟩ := h; exact he'.symm
+  | newkeys =>
+    simp only [estep] at h
+    by_cases he : e.err = true
+    · simp [he] at h
+    · have he' : e.err = false := by simpa using he
+      simp only [he', Bool.false_eq_true, if_false, Option.map_eq_some_iff] at h
+      obtain ⟨_, _, rfl⟩ := h; exact he'.symm
+  | finish =>
+    simp only [estep] at h
+    by_cases he : e.err = true
+    · simp [he] at h
+    · have he' : e.err = false := by simpa using he
+      simp only [he', Bool.false_eq_true, if_false, Option.map_eq_some_iff] at h
+      obtain ⟨_, _, rfl⟩ := h; exact he'.symm
+
+/-- while `writeError` is set every parked writer has been signalled -/
+def EInv (e : ESt) : Prop := e.err = true → ∀ p ∈ e.s.parked, p.signalled = true
+
+theorem einv_step (e e' : ESt) (l : ELabel) (h : estep e l = some e') (hi : EInv e) : EInv e' := by
+  cases l with
+  | ok l =>
+    intro he'
+    have hsame := estep_ok_err e e' l h
+    rw [hsame] at he'
+    -- with the error set only `wake` is enabled: the parked list shrinks
+    cases l with
+    | wake w =>
+      simp only [estep, he', if_true] at h
+      split at h
+      · simp at h
+      · split at h
+        · simp at h
+        · simp only [Option.some.injEq] at h; subst h
+          intro p hp
+          exact hi he' p (List.mem_filter.mp hp).1
+    | submit w => simp [estep, he'] at h
+    | kexinit => simp [estep, he'] at h
+    | kexmsg => simp [estep, he'] at h
+    | newkeys => simp [estep, he'] at h
+    | finish => simp [estep, he'] at h
+  | fail =>
+    simp only [estep, Option.some.injEq] at h; subst h
+    intro _ p hp
+    simp at hp
+    obtain ⟨q, _, rfl⟩ := hp; rfl
+  | submitErr w =>
+    simp only [estep] at h
+    split at h
+    · simp only [Option.some.injEq] at h; subst h; exact hi
+    · simp at h
+  | finishErr =>
+    simp only [estep] at h
+    split at h
+    · simp at h
+    · simp only [Option.some.injEq] at h; subst h
+      intro _ p hp
+      simp at hp
+      obtain ⟨q, _, rfl⟩ := hp; rfl
+
+theorem einv_run : ∀ (ls : List ELabel) (e e' : ESt), EInv e → erun e ls = some e' → EInv e' := by
+  intro ls
+  induction ls with
+  | nil => intro e e' hi h; simp [erun] at h; subst h; exact hi
+  | cons l ls ih =>
+    intro e e' hi h
+    simp only [erun] at h
+    cases hs : estep e l with
+    | none => simp [hs] at h
+    | some t => simp only [hs] at h; exact ih t e' (einv_step e t l hs hi) h
+
+/-- **error_releases_writers**: in every reachable state in which `writeError` is set, each parked writer has been
+    signalled, its wake step is enabled, and taking it releases the writer (with the error: nothing is pushed) -/
+theorem error_releases_writers (ls : List ELabel) (e : ESt) (h : erun einit ls = some e) (he : e.err = true)
+    (p : Parked) (hp : p ∈ e.s.parked) :
+    p.signalled = true ∧
+    ∃ e', estep e (.ok (.wake p.w)) = some e' ∧ isParked e'.s p.w = false ∧ e'.s.wire = e.s.wire ∧ e'.err = true := by
+  have hinv : EInv e := einv_run ls einit e (fun he0 => by simp [einit] at he0) h
+  refine ⟨hinv he p hp, ?_⟩
+  have hex : ∃ q, e.s.parked.find? (fun x => x.w == p.w) = some q := by
+    cases hf : e.s.parked.find? (fun x => x.w == p.w) with
+    | some q => exact ⟨q, rfl⟩
+    | none =>
+      have := List.find?_eq_none.mp hf p hp
+      simp at this
+  obtain ⟨q, hq⟩ := hex
+  have hqm := List.mem_of_find?_eq_some hq
+  have hsig := hinv he q hqm
+  refine ⟨{ e with s := { e.s with parked := e.s.parked.filter (fun x => !(x.w == p.w)) } }, ?_, ?_, rfl, he⟩
+  · simp [estep, he, hq, hsig]
+  · simp [isParked, List.any_eq_false]
+
+/-- the moment the error is recorded everybody is signalled (`recordWriteError`'s Broadcast) -/
+theorem fail_signals_all (e e' : ESt) (h : estep e .fail = some e') :
+    e'.err = true ∧ ∀ p ∈ e'.s.parked, p.signalled = true := by
+  simp only [estep, Option.some.injEq] at h; subst h
+  refine ⟨rfl, ?_⟩
+  intro p hp
+  simp at hp
+  obtain ⟨q, _, rfl⟩ := hp; rfl
+
+/-- **a failed key exchange still flushes the queue** (the code as written; reproduced on the real code, see
+    known_findings): after KEXINIT, one queued packet and a failing `enterKeyExchange`, the queued application
+    packet is on the wire behind our KEXINIT with no NEWKEYS, and `writeError` is nil again. The no-error theorem
+    `no_app_between_kexinit_and_newkeys` does not extend to the error path. -/
+theorem failed_rekey_flushes_pending :
+    ∃ ls e, erun einit ls = some e ∧ wireOK e.s.wire = false ∧ e.err = false ∧
+      e.s.wire = [.kexinit, .kexmsg, .app 0 0] := by
+  refine ⟨[.ok .kexinit, .ok .kexmsg, .ok (.submit 0), .finishErr], ?_⟩
+  simp [erun, estep, step, einit, init, isParked, maxPending, wireOK, wireScan, bump]
+
+/-- with an empty queue the failed key exchange does leave the error set -/
+theorem failed_rekey_without_pending_keeps_error (e e' : ESt) (h : estep e .finishErr = some e')
+    (hp : e.s.pending = []) : e'.err = true ∧ e'.s.wire = e.s.wire := by
+  simp only [estep] at h
+  split at h
+  · simp at h
+  · simp only [Option.some.injEq] at h; subst h
+    simp [hp]
+
 end XC.C31
